@@ -1,5 +1,6 @@
 import PybropsModel.J
 import PybropsModel.Model.Pedigree
+import PybropsModel.Model.DenseMate
 open Lean
 
 namespace Drv.C01
@@ -118,13 +119,22 @@ def opSpecMate : J.Op := fun j => do
     let (ok, msg) := specMate a.P a.pop (wrapConfig a.pop.length a.xc) a.nm a.np a.nself a.xo a.pc a.fc out
     pure <| J.obj [("ok", J.ofBool ok), ("detail", J.ofStr msg)]
 
-/-- the three matrix utilities (`mat_*` and their `dense_*` duplicates) -/
+/-- content of a `numpy.empty((n, nv))` buffer for the dense model: arbitrary values, distinct per cell -/
+def garbage (seed : Int) (n nv : Nat) : List (List Int) :=
+  (List.range n).map (fun (i : Nat) => (List.range nv).map (fun (j : Nat) => (seed + 7 * (i : Int) + 3 * (j : Int)) % 251 - 125))
+
+/-- the three matrix utilities: `module = "util"` runs the model of breed/prot/mate/util.py
+    (`Meiosis.meiosisE/dhE/mateE`), `module = "core"` the buffer-level model of core/util/mate.py
+    (`DenseMate.denseMeiosisE/denseDhE/denseCrossE`, the uninitialised buffers filled with `garbage`) -/
 def opUtil : J.Op := fun j => do
   let fn ← J.field j "fn" J.str
+  let module ← J.fieldD j "module" J.str "util"
+  let seed ← J.fieldD j "garbage" J.int 99
   let xo ← J.field j "xo" (J.list J.rat)
   let draws ← drawsOf j
   let pop ← popOf (← J.field j "geno" (J.list (J.mat J.int)))
   let sel ← J.field j "sel" (J.list J.nat)
+  let dense := module == "core"
   let enc (r : Except Err (Pop Int × List (DrawMat Rat))) : Json :=
     match r with
     | .error e => J.obj [("error", J.ofStr (errTag e))]
@@ -133,17 +143,44 @@ def opUtil : J.Op := fun j => do
   match fn with
   | "meiosis" =>
     match draws with
-    | [r] => match meiosisE pop sel xo r with
+    | [r] =>
+      let res := if dense then DenseMate.denseMeiosisE pop sel xo r (garbage seed sel.length xo.length)
+                 else meiosisE pop sel xo r
+      match res with
       | .error e => pure <| J.obj [("error", J.ofStr (errTag e))]
       | .ok g => pure <| J.obj [("gamete", J.ofMat J.ofInt g),
                                ("closed", J.ofMat J.ofInt
                                   ((List.zip sel r).filterMap (fun sr => (pop[sr.1]?).map (fun i => gamete i (xoMask sr.2 xo)))))]
     | _ => pure <| J.obj [("error", J.ofStr "oracle")]
-  | "dh" => pure <| enc (dhE pop sel xo draws)
+  | "dh" =>
+    pure <| enc (if dense then DenseMate.denseDhE pop sel xo draws [garbage seed sel.length xo.length]
+                 else dhE pop sel xo draws)
   | "mate" => do
     let mpop ← popOf (← J.field j "mgeno" (J.list (J.mat J.int)))
     let msel ← J.field j "msel" (J.list J.nat)
-    pure <| enc (mateE pop mpop sel msel xo draws)
+    pure <| enc (if dense then DenseMate.denseCrossE pop mpop sel msel xo draws
+                                 [garbage seed sel.length xo.length, garbage (seed + 1) msel.length xo.length]
+                 else mateE pop mpop sel msel xo draws)
+  | _ => J.fail s!"unknown fn {fn}"
+
+/-- Spec oracle of the utilities on the implementation's output (`Mating.specGametes/specDh/specCross`) -/
+def opSpecUtil : J.Op := fun j => do
+  let fn ← J.field j "fn" J.str
+  let xo ← J.field j "xo" (J.list J.rat)
+  let pop ← popOf (← J.field j "geno" (J.list (J.mat J.int)))
+  let sel ← J.field j "sel" (J.list J.nat)
+  match fn with
+  | "meiosis" =>
+    let res ← J.field j "res" (J.mat J.int)
+    pure <| J.ofBool (specGametes pop sel xo res)
+  | "dh" =>
+    let res ← popOf (← J.field j "res" (J.list (J.mat J.int)))
+    pure <| J.ofBool (specDh pop sel xo res)
+  | "mate" => do
+    let res ← popOf (← J.field j "res" (J.list (J.mat J.int)))
+    let mpop ← popOf (← J.field j "mgeno" (J.list (J.mat J.int)))
+    let msel ← J.field j "msel" (J.list J.nat)
+    pure <| J.ofBool (specCross pop mpop sel msel xo res)
   | _ => J.fail s!"unknown fn {fn}"
 
 /-- conformance of the primitives the model leans on: numpy.repeat, numpy.lexsort((taxa, taxa_grp))
@@ -160,12 +197,19 @@ def opNp : J.Op := fun j => do
     let grp ← J.field j "grp" (J.list J.nat)
     let rows : List (Row Int) := (List.zip names grp).zipIdx.map (fun x => ⟨([(x.2 : Int)], []), codes x.1.1, x.1.2⟩)
     pure <| J.ofList (fun (r : Row Int) => J.ofInt (r.ind.1.headD 0)) (groupTaxa rows)
+  | "mulwrap" =>
+    let a ← J.field j "a" (J.list J.nat)
+    let b ← J.field j "b" (J.list J.nat)
+    let bits ← J.field j "bits" J.nat
+    let signed ← J.field j "signed" J.bool
+    pure <| J.ofList J.ofInt (countProductAsIs bits signed a b)
   | "zfill" =>
     let ns ← J.field j "ns" (J.list J.nat)
     pure <| J.ofList J.ofStr (ns.map (fun n => strOf (zfill7 n)))
   | _ => J.fail s!"unknown fn {fn}"
 
 def ops : List (String × J.Op) :=
-  [("c01.mate", opMate), ("c01.spec_mate", opSpecMate), ("c01.util", opUtil), ("c01.np", opNp)]
+  [("c01.mate", opMate), ("c01.spec_mate", opSpecMate), ("c01.util", opUtil), ("c01.spec_util", opSpecUtil),
+   ("c01.np", opNp)]
 
 end Drv.C01
